@@ -8,8 +8,11 @@ EXTENDS TLC, Sequences, Naturals, IOUtils
 (* that one property's violation does not mask the validation of another.  *)
 Focus == IF "VERIF_FOCUS" \in DOMAIN IOEnv THEN IOEnv.VERIF_FOCUS ELSE "ALL"
 
+(* A failing clause of a *property* is reported and the trace goes on (the step  *)
+(* is bound to what was observed, so later events are still judged); a failing  *)
+(* BIND clause means the event cannot be interpreted at all and blocks.         *)
 Chk(prop, name, pos, P) ==
     IF Focus # "ALL" /\ prop # "BIND" /\ prop # Focus THEN TRUE
     ELSE IF P THEN TRUE
-    ELSE Print(<<"CHECK-FAILED", prop, name, pos>>, FALSE)
+    ELSE Print(<<"CHECK-FAILED", prop, name, pos>>, prop # "BIND")
 =============================================================================
